@@ -194,6 +194,25 @@ def build(outcome, tier, seed, targets, rng, n_hist):
             reqs.append({"id": i, "to": to, "calls": calls})
             cases.append((i, to, ";".join(mcalls) if mcalls else "-"))
             metas.append((to, calls))
+    # some calls leave the source format to detection: only where a fresh detection of that input picks the format the
+    # documents were written in, so that the model's per-document description stays valid.  (A translator whose detection
+    # depended on earlier inputs would then part from the model.)
+    if outcome.hooks_available:
+        uniq = {}
+        for r in reqs:
+            for c in r["calls"]:
+                uniq.setdefault(c["input"], None)
+        keys = list(uniq)
+        dres = common.harness_batch([{"id": i, "op": "detect", "input": k, "mode": "slice"} for i, k in enumerate(keys)])
+        for k, d in zip(keys, dres):
+            uniq[k] = d.get("detected")
+        n_det = 0
+        for r in reqs:
+            for c in r["calls"]:
+                if uniq.get(c["input"]) == c["from"] and rng.random() < 0.4:
+                    c["from"] = None
+                    n_det += 1
+        outcome.extra["history_calls_with_detected_format"] = outcome.extra.get("history_calls_with_detected_format", 0) + n_det
     return reqs, cases, len(sreqs)
 
 
